@@ -20,7 +20,7 @@ DECODE_CODES = {
 }
 
 FILE_OPS = {"open", "close", "flush", "write", "read", "seek", "trunc", "stat"}
-NS_OPS = {"mkdir", "rm", "mv", "comment", "prot", "lookup", "list"}
+NS_OPS = {"mkdir", "rm", "mv", "comment", "prot", "lookup", "list", "undel"}
 
 
 def canon_list(lines):
@@ -121,9 +121,18 @@ def run_history(ctx, L, first=0, nblocks=1760, variant="adfh", timeout=300, spec
     if rc != 0:
         findings.append(("CRASH", "harness exit code %d" % rc, {"tail": out[-4:], "stderr": err[-400:]}))
     sp = os.path.join(wd, "script")
+    LU = L
+    if any(l.startswith("undel ") for l in L):
+        # whether the blocks of a deleted entry are still intact is not something the reference model knows: an undelete the
+        # library refused is replayed as no operation (its consequences - nothing changed - are still judged)
+        LU = [("noop" if l.startswith("undel ") and not (res.get(i) or ["?"])[-1].startswith("ok") else l) for i, l in enumerate(L, 1)]
+        if not spec_patch:
+            sp = os.path.join(wd, "script.spec")
+            with open(sp, "w") as f:
+                f.write("\n".join(LU) + "\n")
     if spec_patch:
         # the reference model does not know about space: calls that ran out of blocks are replayed with what was stored
-        LS, tolerant = spec_patch(L, res)
+        LS, tolerant = spec_patch(LU, res)
         sp = os.path.join(wd, "script.spec")
         with open(sp, "w") as f:
             f.write("\n".join(LS) + "\n")
